@@ -19,9 +19,10 @@ TH_PRESETS = {
                          monotonicity_threshold=.8, min_n_cycles=3),
     'partial': dict(monotonicity_threshold=.6),
 }
-AMP_TH = {'none': None, 'half': dict(burst_fraction_threshold=.5), 'one-m2': dict(burst_fraction_threshold=1, min_n_cycles=2)}
+AMP_TH = {'none': None, 'half': dict(burst_fraction_threshold=.5), 'one-m2': dict(burst_fraction_threshold=1, min_n_cycles=2),
+          'half-m8': dict(burst_fraction_threshold=.5, min_n_cycles=8)}
 AMP_BK = {'none': None, 'empty': {}, 'm4': dict(min_n_cycles=4), 'thr': dict(amp_threshes=(0.5, 1.5)),
-          'dur': dict(min_burst_duration=0.25)}
+          'dur': dict(min_burst_duration=0.25), 'm2': dict(min_n_cycles=2)}
 FEK = {'none': None, 'b5': dict(boundary=5), 'ncyc5': dict(filter_kwargs=dict(n_cycles=5)),
        'nsec': dict(filter_kwargs=dict(n_seconds=0.4), boundary=3), 'nopad': dict(pad=False)}
 
@@ -47,6 +48,10 @@ def gen_cases(tier, seed):
                     for bk in dict.fromkeys(bks):
                         yield dict(family=fam, seed=sd, centre=centre, method='amp', th=th, bk=bk,
                                    fek=rng.choice(list(FEK)), rs=True)
+                # min_n_cycles supplied by BOTH dictionaries with different values (the reconciliation case)
+                if tier == 'quick':
+                    yield dict(family=fam, seed=sd, centre=centre, method='amp', th='half-m8', bk='m2', fek='none', rs=True)
+                    yield dict(family=fam, seed=sd, centre=centre, method='amp', th='one-m2', bk='m4', fek='none', rs=True)
 
 
 def run_pipeline(c):
